@@ -1112,11 +1112,27 @@ where
         remote: NodeId,
         result: Result<fetch::FetchResult, FetchError>,
     ) {
+        // A fetch result can arrive late, eg. after the peer it ran on was disconnected and
+        // re-connected. In the meantime, a fetch of the same repository from *another* peer may
+        // have been started; that fetch must not be completed by this result.
+        match self.fetching.get(&rid) {
+            None => {
+                error!(target: "service", "Received unexpected fetch result for {rid}, from {remote}");
+                return;
+            }
+            Some(fetching) if fetching.from != remote => {
+                warn!(
+                    target: "service",
+                    "Ignoring stale fetch result for {rid} from {remote}: currently fetching from {}",
+                    fetching.from
+                );
+                return;
+            }
+            Some(_) => {}
+        }
         let Some(fetching) = self.fetching.remove(&rid) else {
-            error!(target: "service", "Received unexpected fetch result for {rid}, from {remote}");
             return;
         };
-        debug_assert_eq!(fetching.from, remote);
 
         if let Some(s) = self.sessions.get_mut(&remote) {
             // Mark this RID as fetched for this session.
